@@ -252,7 +252,7 @@ def run_check(engine, tier='quick', seed=0, workers=None, digest_only=None, scal
     exit_code = 0
     reported = []
     replay_dir = os.environ.get('SIMSTONE_REPLAY_DIR') or os.path.join(VERIF, 'replays')
-    if os.environ.get('SIMSTONE_NO_EVIDENCE'):
+    if os.environ.get('SIMSTONE_NO_EVIDENCE') and not os.environ.get('SIMSTONE_REPLAY_DIR'):
         import tempfile
         replay_dir = tempfile.mkdtemp(prefix='simstone-replays-')
     os.makedirs(replay_dir, exist_ok=True)
@@ -364,7 +364,7 @@ def run_check(engine, tier='quick', seed=0, workers=None, digest_only=None, scal
                   encoding='utf-8') as f:
             json.dump(ev, f, indent=1, ensure_ascii=False, default=str)
             f.write('\n')
-    else:
+    elif not os.environ.get('SIMSTONE_REPLAY_DIR'):
         import shutil
         shutil.rmtree(replay_dir, ignore_errors=True)
     print('%s %s: runs=%d distinct=%d steps=%d faults=%d rejected=%d violations=%d known=%d harness_errors=%d wall=%.1fs' % (
